@@ -17,13 +17,24 @@ Definition emb (s : cstate) : sstate :=
 
 Section NoBranches.
 Variable g : graph.
-Let G := mksg g [].
+Let G := mksg g [] [] [].
 
 Lemma br_srcs_nil n : br_srcs G n = [].
 Proof. reflexivity. Qed.
 
 Lemma cpreds_nil n : cpreds G n = n_preds n.
-Proof. unfold cpreds. rewrite br_srcs_nil. apply app_nil_r. Qed.
+Proof. unfold cpreds. rewrite br_srcs_nil. simpl. apply app_nil_r. Qed.
+
+Lemma dpreds_nil n : dpreds G n = n_preds n.
+Proof. reflexivity. Qed.
+
+Lemma csuccs_nil c : csuccs G c = succs g c.
+Proof.
+  unfold csuccs, succs. simpl. f_equal. apply filter_ext. intros n. apply orb_false_r.
+Qed.
+
+Lemma dsuccs_nil c : dsuccs G c = succs g c.
+Proof. reflexivity. Qed.
 
 Lemma unselected_nil fixed c : unselected fixed G c = [].
 Proof. reflexivity. Qed.
@@ -43,7 +54,7 @@ Proof.
   unfold emb, report; simpl. rewrite sel_of_nil, app_nil_r.
   assert (E : forall l : list nid, filter (fun t : nid => negb (nmem t [])) l = l).
   { intros l. apply filter_true. }
-  rewrite !E. unfold dsuccs; simpl. f_equal.
+  rewrite !E. rewrite csuccs_nil, dsuccs_nil. f_equal.
   rewrite map_app, !map_map. reflexivity.
 Qed.
 
@@ -65,7 +76,7 @@ Proof. intros E. induction l as [|a l IH]; simpl; [reflexivity|rewrite E, IH; re
 
 Lemma sready_emb s n : sready G (emb s) n = ready Dag s n.
 Proof.
-  unfold sready, ready. rewrite cpreds_nil. simpl.
+  unfold sready, ready. rewrite cpreds_nil. change (dpreds G n) with (n_preds n). simpl.
   rewrite forallb_andb.
   rewrite (forallb_ext' _ (fun p => dmem (n_id n, p) (deps s))) by (intros x; apply cfind_emb).
   rewrite (forallb_ext' (fun d => match vfind (n_id n, d) (vals s) with Some _ => true | None => dmem (n_id n, d) [] end)
@@ -74,7 +85,7 @@ Proof.
   - intros x. unfold has_val. destruct (vfind (n_id n, x) (vals s)); reflexivity.
 Qed.
 
-Lemma sget_input_emb s n : sget_input (emb s) n = get_input s n.
+Lemma sget_input_emb s n : sget_input G (emb s) n = get_input s n.
 Proof. reflexivity. Qed.
 
 Lemma sclear_emb s n : sclear (emb s) n = emb (clear s n).
@@ -111,7 +122,8 @@ Proof.
   destruct (nth_error running _) as [t|]; [|reflexivity].
   destruct (failed t); [reflexivity|].
   rewrite scalc_next_emb.
-  destruct (calc_next Dag g s [run_task t]) as [v|ts s']; [reflexivity|]. apply IH.
+  destruct (calc_next Dag g s [run_task t]) as [v|ts s']; [reflexivity|].
+  destruct (existsb prefail ts); [reflexivity|]. apply IH.
 Qed.
 
 Lemma seager_no_branches fixed pick fuel : seager fixed pick G fuel = eager pick g fuel.
@@ -119,7 +131,7 @@ Proof.
   unfold seager, eager, start_next.
   change sinit with (emb cinit). rewrite scalc_next_emb.
   destruct (calc_next Dag g cinit [(START, input_val)]) as [v|ts s']; [reflexivity|].
-  apply srun_eager_emb.
+  destruct (existsb prefail ts); [reflexivity|]. apply srun_eager_emb.
 Qed.
 
 End NoBranches.
@@ -129,7 +141,7 @@ End NoBranches.
         which of 3 and 4 was collected first ---- *)
 Definition g_fc03d : sgraph :=
   mksg [mkn 3 [0] 0; mkn 4 [0] 0; mkn 5 [3] 0; mkn 6 [3] 0; mkn 7 [4] 0; mkn 1 [5; 6; 7] 0]
-       [mkbr 3 [5; 6] [6]; mkbr 4 [5; 7] [7]].
+       [mkbr 3 [5; 6] [6]; mkbr 4 [5; 7] [7]] [] [].
 Definition pick_newest (l : list (node * val)) : nat := (List.length l - 1)%nat.
 
 Lemma seager_v0_schedule_dependent :
